@@ -1,9 +1,14 @@
 #!/bin/sh
-# mutest.sh <patch.diff> <property id> [--only regex]: apply a seeded change to /repo, run the check, undo the change
+# mutest.sh <patch.diff> <property id> [--only regex]: apply a seeded change to /repo, run the check, undo the change.
+# The property's evidence file and replay files are put back afterwards: committed evidence only ever comes from the unchanged tree.
 patch=$1; id=$2; shift 2
 git -C /repo diff --quiet || { echo "/repo has local changes"; exit 3; }
 git -C /repo apply "$patch" || { echo "patch does not apply"; exit 3; }
-cd /verif && ./check $id --tier quick "$@" 2>&1 | grep -a "^C[0-9]\|^VIOLATION\|^KNOWN\|^UNDECIDED" | cut -c1-260
-rc=$?
+cd /verif
+keep=$(mktemp -d)
+cp evidence/$id.json $keep/ 2>/dev/null
+./check $id --tier quick "$@" 2>&1 | grep -a "^C[0-9]\|^VIOLATION\|^KNOWN\|^UNDECIDED" | cut -c1-260
 git -C /repo checkout -- .
+cp $keep/$id.json evidence/ 2>/dev/null
+rm -rf $keep
 exit 0
